@@ -57,7 +57,7 @@ base=$(basename "$input"); stem="${base%.*}"
 out="$outdir/$stem.$fmt"
 echo "CONVERT $C_MODE $fmt" >> "$CTL/log"
 echo "INPUT $(sha256sum < "$input" | cut -c1-64)" >> "$CTL/log"
-wrote() { echo "WROTE $(sha256sum < "$1" | cut -c1-64) $1" >> "$CTL/log"; }
+wrote() { printf 'WROTE %s %s\n' "$(sha256sum < "$1" | cut -c1-64)" "$1" >> "$CTL/log"; }
 full() { { printf 'FAKE-%s:%s:' "$fmt" "$SEQ"; sha256sum < "$input"; } > "$out"; wrote "$out"; }
 res() {
   if [ "$fmt" = "html" ] && [ "$RES" -gt 0 ]; then
@@ -110,7 +110,8 @@ E_EXCS = ["InjectedFault", "MemoryError", "KeyboardInterrupt", "OSError"]
 
 def gen_target(rng, kind: str) -> dict:
     name = rng.choice(["report", "report.v2", "out put", "tbl-01", "r", "noext", ".hidden", "résumé", "表_14_1",
-                       "REPORT", "a'b", "x;y", "50%", "-dash"])
+                       "REPORT", "a'b", "x;y", "50%", "-dash", "report[1]", "t[ab]c", "star*", "q?", "{x}", "$HOME",
+                       "a\\b", "tab\tname"])
     suffix = SUFFIX[kind]
     r = rng.random()
     if r < 0.12:
@@ -1324,6 +1325,16 @@ def matrix_jobs(root: int, docs: list) -> list:
                 {"kind": kind, "doc": 0, "target": tgt, "fault": {"kind": "P", "mode": mode, "die": f"code{code}"},
                  "converter": "explicit", "res": 0, "stray": False, "id": 0}], "xdev": False, "recovery": False},
                 "site_job": None})
+            idx += 1
+    # write_rtf of documents whose output length sits exactly on / next to a buffer boundary and whose
+    # character count differs from its UTF-8 byte count
+    for N in (4096, 8192, 65536, 131072, 1048576, 2097152):
+        for delta in (-3, -1, 0, 1):
+            tgt = {"name": f"sz{N}_{delta}.rtf", "style": "str", "pre": rng.choice(["absent", "file"]),
+                   "missing_parents": 0}
+            jobs.append({"idx": idx, "plan": {"recipes": [{"kind": "sized", "target_len": N + delta}], "ops": [
+                {"kind": "write_rtf", "doc": 0, "target": tgt, "fault": {"kind": "none"}, "converter": "none",
+                 "res": 0, "stray": False, "id": 0}], "xdev": False, "recovery": False}, "site_job": None})
             idx += 1
     for kind in ("write_docx", "write_html", "write_pdf"):
         tgt = {"name": "s" + SUFFIX[kind], "style": "str", "pre": "file", "missing_parents": 0}
